@@ -34,7 +34,8 @@ RULE = ('(a) isolated pipeline: the real LuaFormatterWriter._get_code_for_spaces
 PARTIAL = ('proved at program level (parser trees inside the writer domain of C09_aligned, tidy token codes): C10_shape (no trailing '
            'white space, no double blank line in the whole luafmt output), C10_indent_counter_partial (a code token that begins a '
            'line is preceded by exactly indentwidth x n spaces, n >= 0 the writer nesting counter at its white-space run), C10_first_line '
-           '(what begins the first line of the output sits at column 0), '
+           '(what begins the first line of the output sits at column 0), C10_no_blank_lines_at_end (the output is empty, one line feed, or '
+           'ends in a byte that is neither blank nor line feed followed by at most one line feed), '
            'C10_indent_link (n = the reference depth token_depth of Spec/TokenDepth.v at the token the run ends at, for every run that '
            'holds a newline token - the only runs after which a token can begin a line: C10_line_start_needs_newline) and C10_indent '
            '(a token that begins a line is preceded by exactly indentwidth x token_depth spaces) - the last two for trees without a '
@@ -73,7 +74,8 @@ CLAIM = dict(
           "blank and never three line feeds in a row) and C10_indent_counter_partial (every code token that begins a line is preceded "
           "by exactly indentwidth x n spaces, n >= 0 the nesting counter at its white-space run), obtained by discharging the "
           "hypotheses separated / codes_ok / no_end of the chunk theorems from the alignment proof (Proofs/AstWriterLines.v), likewise "
-          "C10_first_line (a prefix of the output that is blanks only, without a line feed, is empty); and, for trees "
+          "C10_first_line (a prefix of the output that is blanks only, without a line feed, is empty) and C10_no_blank_lines_at_end (the "
+          "whole output is empty, a single line feed, or ends in a non-blank byte followed by at most one line feed); and, for trees "
           "without a trailing table field separator, C10_indent_link (every non-empty "
           "white-space run handed to _get_code_for_spaces ends at a significant token i and, if it holds a newline token, is passed "
           "_indent = token_depth ts i, the "
